@@ -9,6 +9,7 @@ SPECS = [
     ('c18::c18_exact_w2', 'pre x doc comment with a body of <= 2 characters (1- to 4-byte classes) x two separators: the scan returns exactly the body, byte for byte', 'quick', ['javadoc']),
     ('c18::c18_exact_w3', 'body of <= 3 characters', 'thorough', ['javadoc']),
     ('c18::c18_no_doc', 'no documentation when something else / only an ordinary comment precedes', 'quick', ['javadoc']),
+    ('c18::c18_no_doc_code_between', 'doc comment + {blank, line comment, block comment} + code + construct: the earlier doc comment does not attach', 'quick', ['javadoc']),
     ('c18::c18_exact_w5', 'body of <= 5 characters', 'thorough', ['javadoc']),
 ]
 
